@@ -290,8 +290,35 @@ def cli_flag(ctx, violations):
                     violations.append({"kind": "flag-before-subcommand", "command_line": ["lace"] + pre + [sub] + tail, "exit": rc_p,
                                        "feature_expected_on": on, "stderr": se_p.decode("utf-8", "replace")[-300:],
                                        "note": "the same flag after the sub-command switches the extension on"})
+    # the 0xD stop with a standard OUTPUT that rejects writes (a full device, a reader that has gone): still status 1 and the
+    # note naming the flag on stderr
+    import subprocess
+    # (programs that print nothing themselves: what a failing PUTS / OUT does is not this property's business)
+    for f in ("raw.asm", "raw.lc3"):
+        for mini in (["--minimal"], []):
+            for sink in ("full", "closed-pipe"):
+                if sink == "full" and not os.path.exists("/dev/full"):
+                    continue
+                env = dict(os.environ, NO_COLOR="1", RUST_BACKTRACE="0")
+                if sink == "full":
+                    with open("/dev/full", "wb") as out_f:
+                        pr = subprocess.run([exe, "run", f] + mini, cwd=d, stdin=subprocess.DEVNULL, stdout=out_f, stderr=subprocess.PIPE, env=env, timeout=20)
+                else:
+                    rfd, wfd = os.pipe(); os.close(rfd)
+                    try:
+                        pr = subprocess.run([exe, "run", f] + mini, cwd=d, stdin=subprocess.DEVNULL, stdout=wfd, stderr=subprocess.PIPE, env=env, timeout=20)
+                    finally:
+                        os.close(wfd)
+                runs += 1
+                note = pr.stderr.decode("utf-8", "replace")
+                if pr.returncode != 1 or "-f stack" not in note:
+                    bad += 1
+                    if bad <= 6:
+                        violations.append({"kind": "reserved-stop-with-unwritable-stdout", "command_line": ["lace", "run", f] + mini, "stdout": sink,
+                                           "source": open(os.path.join(d, f.replace(".lc3", ".asm"))).read(), "exit": pr.returncode, "expected_exit": 1,
+                                           "stderr": note[-300:]})
     return {"runs": runs, "spellings": len(spellings), "mismatches": bad,
-            "rule": "real binary: check / compile / run of an extension source, run of a source reaching a 0xD data word, and run (both `lace run FILE` and bare `lace FILE`) of the pre-assembled .lc3 / .obj IMAGES of both, for 17 ways of writing (or not writing, or miswriting) the feature list"}
+            "rule": "real binary: check / compile / run of an extension source, run of a source reaching a 0xD data word, and run (both `lace run FILE` and bare `lace FILE`) of the pre-assembled .lc3 / .obj IMAGES of both, for 17 ways of writing (or not writing, or miswriting) the feature list; the 0xD stop (status 1, note naming the flag) with a standard output that rejects writes (/dev/full, closed pipe)"}
 
 
 def replay(ctx, payload):
